@@ -338,6 +338,35 @@ def _register():
                                 functions=[fn_of(f, 2), "eminus.xc.utils:get_xc"], run=FiniteAt(f, zv),
                                 assumes=("reals",),
                                 doc=f"exc, vxc, vsigma finite when one spin density (and its gradient) is exactly zero (zeta={zv})"))
+    # temperature-dependent LDA family: T = 0 exactly and symbolic T > 0
+    for f in X.KSDT:
+        for Nspin in ((1,) if f == "lda_xc_corr_ksdt" else (1, 2)):
+            label = f + ("_spin" if Nspin == 2 else "")
+            funcs = [fn_of(f, Nspin), "eminus.xc.lda_xc_ksdt:lda_xc_ksdt_spin", "eminus.xc.lda_xc_ksdt:Coefficients",
+                     "eminus.xc.lda_xc_ksdt:_pade", "eminus.xc.lda_xc_ksdt:_dpade", "eminus.xc.lda_xc_ksdt:_get_fxc_zeta",
+                     "eminus.xc.lda_xc_ksdt:_get_dfxc_zetadrs", "eminus.xc.lda_xc_ksdt:_get_dfxc_zetadtheta",
+                     "eminus.xc.lda_xc_ksdt:_get_phi", "eminus.xc.lda_xc_ksdt:_get_dphidrs",
+                     "eminus.xc.lda_xc_ksdt:_get_dphidtheta", "eminus.xc.lda_xc_ksdt:_get_dphidzeta",
+                     "eminus.xc.lda_xc_ksdt:_get_alpha", "eminus.xc.lda_xc_ksdt:_get_theta", "eminus.xc.lda_xc_ksdt:_get_theta0",
+                     "eminus.xc.lda_xc_ksdt:_get_theta1", "eminus.xc.lda_xc_ksdt:_get_dtheta0dzeta",
+                     "eminus.xc.lda_xc_ksdt:_get_dthetadn_up", "eminus.xc.utils:get_xc"]
+            for T, tl in ((0, "T0"), ("pos", "Tpos")):
+                for s in range(Nspin):
+                    sp = SP[s] if Nspin == 2 else "n"
+                    register(Obligation(
+                        name=f"C02.{label}.vxc_{sp}.{tl}", prop=PROP, engine="A", functions=funcs,
+                        run=XCIdentity(f, Nspin, "vxc", s, T=T), budget={"quick": 150, "thorough": 1200},
+                        assumes=("reals", "generic", "engineA", "chain-rule", "numpy-structural"),
+                        doc=f"vxc[{s}] == d(n exc)/dn_{sp} for {label} at " + ("T = 0" if T == 0 else "symbolic T > 0")))
+            register(Obligation(name=f"C02.{label}.pointwise", prop=PROP, engine="A", functions=funcs,
+                                run=Pointwise(f, Nspin), assumes=("pointwise-lift", "numpy-structural"),
+                                doc="outputs at a grid point depend only on the inputs at that point"))
+        if f != "lda_xc_corr_ksdt":
+            for zv, tag in ((1, "p1"), (-1, "m1")):
+                register(Obligation(name=f"C02.{f}_spin.finite_zeta_{tag}", prop=PROP, engine="A",
+                                    functions=[fn_of(f, 2), "eminus.xc.utils:get_xc"], run=FiniteAt(f, zv),
+                                    assumes=("reals",),
+                                    doc=f"exc, vxc finite when one spin density is exactly zero (zeta={zv}), T = 0"))
     for Nspin in (1, 2):
         for gx, gc in ((False, False), (True, True), (True, False), (False, True)):
             register(Obligation(name=f"C02.get_xc.sum_xc.Nspin{Nspin}.{'g' if gx else 'l'}{'g' if gc else 'l'}", prop=PROP,
